@@ -586,8 +586,8 @@ class ActionTypeHint(Action):
                         raise ex
                     try:
                         if isinstance(orig_val, str):
-                            with change_to_path_dir(config_path):
-                                val = adapt_typehints(orig_val, self._typehint, default=self.default, **kwargs)
+                            # the original string was given relative to the current directory, not to the file it may name
+                            val = adapt_typehints(orig_val, self._typehint, default=self.default, **kwargs)
                             ex = None
                     except ValueError:
                         if self._enable_path and config_path is None and isinstance(orig_val, str):
